@@ -282,4 +282,33 @@ theorem recvAllF_no_panic (codec : Codec) (fuel : Nat) (st : RState) (car : Carr
       | head => exact hp
       | tail _ ho => exact ih _ _ hinv o ho
 
+/-- States the reader can be in at a loop head of `poll_next`: the initial state, and the state
+after any inner read result the carrier may produce (at most `cap` bytes). -/
+inductive Reach (codec : Codec) : RState → Prop
+  | init : Reach codec (RState.init codec)
+  | step (st : RState) (cap : Nat) (r : RdRes) : Reach codec st → readCap codec st = .ok cap →
+      (∀ bs, r = .ok bs → bs.length ≤ cap) → Reach codec (onRead codec st r).1
+
+theorem reach_inv {codec : Codec} {st : RState} (h : Reach codec st) : RInv codec st := by
+  induction h with
+  | init => exact rinv_init codec
+  | step st cap r _ hcap hr ih => exact (onRead_inv ih cap hcap r hr).1
+
+/-- Every state `poll_next` passes through or ends in is such a state. -/
+theorem reach_pollNextF (codec : Codec) (fuel : Nat) (st : RState) (car : Carrier) (h : Reach codec st) :
+    Reach codec (pollNextF codec fuel st car).2.1 := by
+  induction fuel generalizing st car with
+  | zero => exact h
+  | succ fuel ih =>
+    obtain ⟨cap, hcap⟩ := readCap_ok (reach_inv h)
+    unfold pollNextF
+    simp only [hcap]
+    have hstep := Reach.step st cap (carRead cap car).1 h hcap (fun bs hbs => carRead_le cap car bs hbs)
+    cases ho : (onRead codec st (carRead cap car).1) with
+    | mk st' o =>
+      rw [ho] at hstep
+      cases o with
+      | some out => exact hstep
+      | none => exact ih st' _ hstep
+
 end Litep2pVerif.Substream
